@@ -325,14 +325,23 @@ CLAIMED = {
              "key is least in the residual order (allkeys_any_order). Built on C15.needle_exact, C09's refinement and C02.parse_serialize. End-to-end "
              "theorems with hypotheses about the payload bytes only (the three parameters discharged by the function the driver runs, "
              "fromFileReal_instantiates / fromFileReal_eq_spec): extract_raw_end_to_end(_bytes), extract_xorencoded_end_to_end, "
-             "extract_none_end_to_end, extract_guardrails_end_to_end; fromFile_C08_factors ties C08's composition to the same function.",
+             "extract_none_end_to_end, extract_guardrails_end_to_end; fromFile_C08_factors ties C08's composition to the same function. "
+             "find_beacon_config_bytes, iter_beacon_config_blocks and BeaconConfig.from_file are translated from their source text on every run in "
+             "FIRST-YIELD form (tools/gen/py_extractu.py -> Gen/PyExtract.lean: from_file never resumes a generator after its first yield; an "
+             "exact AST rewriting) with file-like objects dispatched between ordinary files and the translated XorEncodedFile methods; "
+             "C01Gen.gen_iter_beacon_config_blocks_first proves that the source text yields first exactly the first candidate of the "
+             "specification (decoded view before file, key priority, file order, then the residual keys) and never raises, so extract_first and "
+             "extract_none hold for the source text (gen_extract_first, gen_extract_none, gen_from_file_found/_fallback/_eq_model; 19 theorems); "
+             "the former harness assumption 'first element of the fully consumed run = what from_file observes' is a theorem (first_yield_find/_keys).",
         note="The XorEncoded detector answer (C09), the residual key order and the Guardrails fallback (C17) are parameters of the theorems; the one "
              "detector hypothesis (c + 8 <= file size) is proved for the executable detector used in the runs, which is proved to answer as "
              "C09.fromFileFull. Behaviour of iter_beacon_config_blocks after its first yield, the exact residual key order and CPython's Counter/sort "
              "are correspondence-only. PE artifacts are C18. Constants come from tools/gen/extract.py. Correspondence: an independent payload builder "
              "whose ground truth is a brute-force least-candidate search, all 256 keys, offsets around k*B for B in {7..8192}, every container, "
              "filler and key-list variant.",
-        design="§4 C01",
+        design="§4 C01, §12.7",
+        technique="Lean 4 theorems about an executable model; model tied to the code by source-to-Lean translation (proved equal) and by a "
+                  "model/implementation correspondence check",
     ),
     "C11": dict(
         text="Machine-checked: for every well-formed derivation of the generated grammar with lexable tokens, as_dict of its tree equals the grouped "
@@ -360,14 +369,21 @@ CLAIMED = {
              "# dns_resolver comment stays on one line, and the dictionary of the re-parsed profile equals the one promised from the configuration "
              "alone, byte-exact via C12's literal_roundtrip (generated_faithful, generated_faithful_tlv, execute_item_faithful, *_literal_decodes). "
              "Generated-table obligations re-proved on every run pin the if/elif chain, every emitted option/statement/block/execute/BeaconGate/"
-             "transform name against the grammar, the str->bytes preamble, the SETTING_DOMAINS branch and the encoded execute value to the source.",
+             "transform name against the grammar, the str->bytes preamble, the SETTING_DOMAINS branch and the encoded execute value to the source. "
+             "The whole class method from_beacon_config is additionally translated from its source text on every run (tools/gen/py_c2gen.py -> "
+             "Gen/PyC2Gen.lean; builder API external, branches outlined in checked steps) and proved equal to the model: every slice for all "
+             "arguments, one run of the loop body = stepOne for any setting number (the 48-test if/elif chain tied to the action table by proof), "
+             "and C13Gen.gen_from_beacon_config on the explicit domain shapeOK (which contains every well-formed configuration with valid UTF-8 "
+             "execute items); generation_total, generated_valid, empty_blocks_absent, generated_faithful restated (19 theorems).",
         note="The LALR parser step (from_text(as_text()).tree == tree) and as_dict = specDict (C11's subject) are compared on every case (19k quick / "
              "117k thorough), not proved; generated_text_relexes excludes trees carrying the # dns_resolver comment. Execute items are modelled as "
              "the UTF-8 bytes of the pretty str (invalid UTF-8 is C03's subject and is not generated). Pretty functions and dict semantics are C02/C03's "
              "subject: the harness checks on every case that the library presents exactly the pretty values on the line. Tables come from "
              "tools/gen/profile_gen.py (ast walk of from_beacon_config, DataTransformBlock.__init__, parse_transform_binary, parse_recover_binary, "
              "beacon_gate_options_string, as_dict), grammar.py and strlit.py. Five defects found by this check were repaired in /repo (fix: commits).",
-        design="§4 C13, §11",
+        design="§4 C13, §11, §12.7",
+        technique="Lean 4 theorems about an executable model; model tied to the code by source-to-Lean translation (proved equal) and by a "
+                  "model/implementation correspondence check",
     ),
     "C08": dict(
         text="Lean 4 proof: for every entry point that accepts untrusted bytes - BeaconConfig.from_bytes/from_file/from_path, XorEncodedFile.from_file, "
